@@ -121,7 +121,7 @@ def stage_coq(targets, timeout=2400):
 
 
 def theorem_names(vfile):
-    src = open(vfile, encoding="utf-8").read()
+    src = strip_coq_comments(open(vfile, encoding="utf-8").read())      # a statement quoted in a comment is not an obligation
     return re.findall(r"^\s*(?:Theorem|Corollary)\s+([A-Za-z0-9_']+)", src, re.M)
 
 
